@@ -25,6 +25,9 @@ ASSUMPTIONS = [
     'Python-only integer spellings (e.g. 7_7) may be reported as int or '
     'str; with duplicate keys any of the given values may be reported',
     'whitespace-only lines are blank separators, not header candidates',
+    'a grammatical header whose encoding option names no usable text codec '
+    'may be rejected with a parse error on that line (semantic validation '
+    'is not part of the grammar property)',
 ]
 
 ALPHABET = [b'a', b'Z', b'7', b'_', b'-', b'.', b'/', b'=', b',', b' ',
@@ -53,6 +56,14 @@ def check_line(line, obs, file_nl=b'\n', follow=b''):
         data = b'#diffx: version=1.0' + file_nl + line + file_nl
     recs, exc, _ = common.read_records(data)
     case = {'line': line, 'file_newline': file_nl, 'follow': follow}
+    if accept and exc is not None and \
+            type(exc).__name__ == 'DiffXParseError' and exc.linenum == 1 \
+            and semantically_invalid(parsed[3]):
+        # grammatical, but a known option carries a value the reader may
+        # legitimately refuse (e.g. an unknown codec): not the grammar's
+        # business, either outcome is fine
+        obs.count('tolerance:semantic_rejection_of_known_option')
+        return
     if accept:
         obs.count('oracle_accepts')
         pairs = parsed[3]
@@ -86,6 +97,19 @@ def check_line(line, obs, file_nl=b'\n', follow=b''):
         if exc.linenum != 1 or len(recs) != 1:
             obs.violation('invalid_header_error_position', case,
                           {'linenum': exc.linenum, 'records': len(recs)})
+
+
+def semantically_invalid(pairs):
+    """Does a known container option hold a value that is not usable?"""
+    for k, v in pairs:
+        if k == b'encoding':
+            try:
+                if hg.is_decimal(v):
+                    return True
+                '\n'.encode(v.decode('ascii'))
+            except (LookupError, ValueError):
+                return True
+    return False
 
 
 def why(line, parsed):
